@@ -258,7 +258,7 @@ func TestC06(t *testing.T) {
 	defer stats.Write()
 	capK := 24
 	if core.Tier() == "thorough" {
-		capK = 400
+		capK = 250
 	}
 	rapid.Check(t, func(rt *rapid.T) {
 		j := &Journal{}
